@@ -783,6 +783,47 @@ Definition parse (B : benv) (raw : list (token * position)) (eof : position) : o
     end
   end.
 
+(* ---------- the premise of the scoping theorem (ParserScope.v) ---------- *)
+(* every `func` keyword at which the statement loop arrives is followed by an identifier *)
+Fixpoint loop_named (B : benv) (fuel : nat) (terms : bool) (s : pst) : bool :=
+  match fuel with
+  | 0 => true
+  | S f =>
+    match ct s with
+    | T_EOF => true
+    | T_FUNC => (match ct (adv s) with T_IDENT => true | _ => false end) &&
+                match parse_func B f s with Ok _ s1 => loop_named B f terms s1 | _ => true end
+    | T_ON => match parse_event_handler B f s with Ok _ s1 => loop_named B f terms s1 | _ => true end
+    | _ => match parse_statement B f s with
+           | Ok None s1 => loop_named B f terms s1
+           | Ok (Some st) s1 => if terms then true else loop_named B f (always_terms st) s1
+           | _ => true
+           end
+    end
+  end.
+
+Definition legal_toks (raw : list (token * position)) : list token :=
+  map fst (filter (fun tp => negb (is_illegal (fst tp))) raw).
+(* the parser as newParser creates it: the builtin functions *)
+Definition newparser_state (B : benv) (toks : list token) : pst :=
+  {| cs := state_at tEOF toks []; scs := [];
+     fns := map (fun nb => (fst nb, {| fi_nil := snd nb; fi_ret := true;
+                                      fi_arity := match lookup_arity (fst nb) (b_arity B) with Some a => a | None => None end;
+                                      fi_params := [] |})) (b_funcs B);
+     bodies := []; hds := [] |}.
+(* the function table after the signature pre-pass (parseFuncSignatures): builtins and one entry per `func` signature *)
+Definition fn_table (B : benv) (raw : list (token * position)) : list (str * finfo) :=
+  match signatures B tEOF (legal_toks raw) (newparser_state B (legal_toks raw)) with Ok _ s1 => fns s1 | _ => [] end.
+Definition globals_scope (B : benv) : scope :=
+  {| sc_vars := map (fun n => {| v_name := n; v_used := true; v_pos := 0 |}) (b_globals B);
+     sc_ret := false; sc_retval := false; sc_loop := false |}.
+Definition loop_start_state (B : benv) (raw : list (token * position)) : pst :=
+  {| cs := state_at tEOF (legal_toks raw) []; scs := [globals_scope B]; fns := fn_table B raw; bodies := []; hds := [] |}.
+(* the statement loop of this parse never arrives at a `func` keyword that is not followed by an identifier *)
+Definition funcs_named (B : benv) (raw : list (token * position)) : bool :=
+  loop_named B (fuel_of (legal_toks raw)) false (loop_start_state B raw).
+
+
 (* ---------- wire format ---------- *)
 Definition decode_pos_token (x : sx) : option (token * position) :=
   match x with
@@ -845,7 +886,8 @@ Definition decode_tyerr (x : sx) : option (str * nat) :=
           ((site blamed-token) ...))
    The last component is the typing oracle: the typing errors the real type checker reported, each as
    its site and the token it blames (tokens left); the oracle objects exactly there.
-   answer: (accept) | (reject (line col) ...) | (crash) | (oof); a wrong argument count is reported as (0 0) *)
+   answer: (accept) | (reject (line col) ...) | (crash) | (oof); a wrong argument count is reported as (0 0);
+   (accept-but-funcs-named-false): accepted, but the premise of C05_scope_accept_scoped_partial does not hold on this run *)
 Definition parser_case (x : sx) : sx :=
   match x with
   | Lst [Lst fs; Lst gs; Lst evs; Lst ts; Lst [Int el; Int ec]; Lst tes] =>
@@ -857,7 +899,7 @@ Definition parser_case (x : sx) : sx :=
       let B := {| b_funcs := map (fun x => (fst (fst x), snd (fst x))) funcs; b_arity := map (fun x => (fst (fst x), snd x)) funcs;
                   b_globals := globals; b_events := events; b_tyerr := oracle |} in
       match parse B raw (Z.to_nat el, Z.to_nat ec) with
-      | Accept _ => Lst [Sym (s_ "accept")]
+      | Accept _ => if funcs_named B raw then Lst [Sym (s_ "accept")] else Lst [Sym (s_ "accept-but-funcs-named-false")]
       | Reject es => Lst (Sym (s_ "reject") :: map pos_sx es)
       | CrashOut _ => Lst [Sym (s_ "crash")]
       | OutOfFuel => Lst [Sym (s_ "oof")]
